@@ -18,3 +18,4 @@ pub mod c15;
 pub mod c14;
 pub mod ctl;
 pub mod c05;
+pub mod c08;
